@@ -77,6 +77,15 @@ def _item(case, lean):
             mod = None if res["impl"] is None else float(Fraction(res["impl"]))
             ok = (real is None and mod is None) or (real is not None and mod is not None and _near(real, mod, 2e-4))
             if not ok or res["impl"] != res["def"]: corr = False; failed.append(f"score(user {u}, item {t}) = {real}, definition {mod}")
+        # the score is a function of the query: the same history object (ratings in a caller-owned, writeable float32 array — the
+        # form a serving loop keeps around) scored again gives the same scores, and the caller's ratings are what they were
+        if len(hist) and explicit:
+            own = np.array(hist.field("rating"), dtype=np.float32); keep = own.copy()
+            h32 = ItemList(item_ids=hist.ids(), rating=own); q32 = RecQuery(user_id=u, user_items=h32)
+            first = m(q32, items).scores(); second = m(q32, items).scores()
+            if not np.allclose(first, sc, atol=1e-5, equal_nan=True): corr = False; failed.append(f"user {u}: history as a float32 array scores differently from the same history as read from the dataset")
+            if not np.array_equal(first, second, equal_nan=True): corr = False; failed.append(f"user {u}: scoring the same query object twice gives different scores")
+            if not np.array_equal(np.asarray(h32.field("rating")), keep) or not np.array_equal(own, keep): failed.append(f"user {u}: the caller's history ratings were changed by the scorer")
     return corr, failed, over_k
 
 def _user(case, lean):
@@ -121,6 +130,13 @@ def _user(case, lean):
         items = ItemList(item_ids=list(ds.items.ids()))
         try: sc = m(qobj, items).scores()
         except Exception as e: corr = False; failed.append(f"{label}: raised {type(e).__name__}"); continue
+        # the same query object asked again answers the same, and the caller's history is left as it was
+        if qobj.user_items is not None:
+            keep_ids = list(qobj.user_items.ids()); keep_r = None if qobj.user_items.field("rating") is None else np.array(qobj.user_items.field("rating")).copy()
+            again = m(qobj, items).scores()
+            if not np.array_equal(sc, again, equal_nan=True): corr = False; failed.append(f"{label}: scoring the same query object twice gives different scores")
+            if list(qobj.user_items.ids()) != keep_ids or (keep_r is not None and not np.array_equal(np.array(qobj.user_items.field("rating")), keep_r)):
+                failed.append(f"{label}: the caller's history was changed by the scorer")
         qual = [v for v in range(len(sims)) if sims[v] >= ms]
         for t in range(len(items)):
             nbrs = [[v, rat(sims[v]), rat(UR[v, t]) if RM[v, t] else "0"] for v in qual]
